@@ -221,6 +221,28 @@ pub fn more() -> Vec<Entry> {
         w::<ark_ed25519::EdwardsAffine>("ed25519::EdwardsAffine", F, 2, 1),
         w::<ark_ed25519::EdwardsProjective>("ed25519::EdwardsProjective", F, 1, 1),
         w::<ark_ec::pairing::PairingOutput<ark_bn254::Bn254>>("PairingOutput<Bn254>", F, 1, 1),
+        // the remaining curve crates
+        w::<ark_vesta::Affine>("vesta::Affine", F, 1, 1),
+        w::<ark_secp256k1::Affine>("curves secp256k1::Affine", F, 1, 1),
+        w::<ark_secq256k1::Affine>("secq256k1::Affine", F, 1, 1),
+        w::<ark_secp256r1::Affine>("secp256r1::Affine", F, 1, 1),
+        w::<ark_bw6_767::G1Affine>("bw6_767::G1Affine", F, 1, 1),
+        w::<ark_bw6_767::G2Affine>("bw6_767::G2Affine", F, 1, 1),
+        w::<ark_cp6_782::G1Affine>("cp6_782::G1Affine", F, 1, 1),
+        w::<ark_cp6_782::G2Affine>("cp6_782::G2Affine", F, 1, 1),
+        w::<ark_mnt4_753::G1Affine>("curves mnt4_753::G1Affine", F, 1, 1),
+        w::<ark_mnt4_753::G2Affine>("curves mnt4_753::G2Affine", F, 1, 1),
+        w::<ark_mnt6_753::G1Affine>("curves mnt6_753::G1Affine", F, 1, 1),
+        w::<ark_mnt6_753::G2Affine>("curves mnt6_753::G2Affine", F, 1, 1),
+        w::<ark_bls12_377::G1Projective>("bls12_377::G1Projective", F, 1, 1),
+        w::<ark_bn254::G1Projective>("bn254::G1Projective", F, 1, 1),
+        w::<ark_ed_on_cp6_782::EdwardsAffine>("ed_on_cp6_782::EdwardsAffine", F, 1, 1),
+        w::<ark_ed_on_bw6_761::EdwardsAffine>("ed_on_bw6_761::EdwardsAffine", F, 1, 1),
+        w::<ark_ed_on_mnt4_298::EdwardsAffine>("ed_on_mnt4_298::EdwardsAffine", F, 1, 1),
+        w::<ark_ed_on_mnt4_753::EdwardsAffine>("ed_on_mnt4_753::EdwardsAffine", F, 1, 1),
+        w::<ark_curve25519::EdwardsAffine>("curve25519::EdwardsAffine", F, 1, 1),
+        w::<ark_ed_on_bls12_381::SWAffine>("jubjub SWAffine (cofactor 8)", F, 1, 1),
+        w::<ark_ec::pairing::PairingOutput<ark_mnt4_298::MNT4_298>>("PairingOutput<MNT4_298>", F, 1, 1),
         // ark-poly's serializable types
         e::<DensePolynomial<Fr>>("poly DensePolynomial<Fr>", C18, 2, 8),
         e::<SparsePolynomial<Fr>>("poly SparsePolynomial<Fr>", C18, 2, 8),
@@ -229,5 +251,112 @@ pub fn more() -> Vec<Entry> {
         e::<Evaluations<Fr, Radix2EvaluationDomain<Fr>>>("poly Evaluations<Fr,Radix2>", C18, 1, 8),
         e::<DenseMultilinearExtension<Fr>>("poly DenseMultilinearExtension<Fr>", C18, 1, 8),
         e::<SparseMultilinearExtension<Fr>>("poly SparseMultilinearExtension<Fr>", C18, 1, 8),
+    ]
+}
+
+// ---- the with-flags entry points on their own (fields whose spare bits are fewer than the flag bits) ----
+
+use ark_ec::short_weierstrass::SWFlags;
+use ark_ec::twisted_edwards::TEFlags;
+use ark_ff::{Field, Fp2, Fp2Config};
+use ark_serialize::{
+    CanonicalDeserializeWithFlags, CanonicalSerializeWithFlags, Compress, EmptyFlags, Flags, Read, SerializationError,
+    Validate, Write,
+};
+
+pub trait GenFlags: Flags + Send + Sync + 'static {
+    const NAME: &'static str;
+    fn draw(rng: &mut simkit::Rng) -> Self;
+}
+impl GenFlags for SWFlags {
+    const NAME: &'static str = "SWFlags";
+    fn draw(rng: &mut simkit::Rng) -> Self {
+        *rng.pick(&[SWFlags::YIsPositive, SWFlags::YIsNegative, SWFlags::PointAtInfinity])
+    }
+}
+impl GenFlags for TEFlags {
+    const NAME: &'static str = "TEFlags";
+    fn draw(rng: &mut simkit::Rng) -> Self {
+        *rng.pick(&[TEFlags::XIsPositive, TEFlags::XIsNegative])
+    }
+}
+impl GenFlags for EmptyFlags {
+    const NAME: &'static str = "EmptyFlags";
+    fn draw(_: &mut simkit::Rng) -> Self {
+        EmptyFlags
+    }
+}
+
+/// (field element, flags) written with `serialize_with_flags`, sized with
+/// `serialized_size_with_flags`, read back with `deserialize_with_flags`.
+pub struct WithFlags<F: Field, Fl: GenFlags> {
+    pub v: F,
+    pub f: Fl,
+}
+impl<F: Field, Fl: GenFlags> std::fmt::Debug for WithFlags<F, Fl> {
+    fn fmt(&self, f: &mut std::fmt::Formatter<'_>) -> std::fmt::Result {
+        write!(f, "({:?}, {} mask {:#04x})", self.v, Fl::NAME, self.f.u8_bitmask())
+    }
+}
+impl<F: Field, Fl: GenFlags> Sem for WithFlags<F, Fl> {
+    fn gen(g: &mut G<'_>) -> Self {
+        WithFlags { v: crate::algebra::gen_field(g), f: Fl::draw(g.rng) }
+    }
+    fn same(&self, o: &Self) -> bool {
+        self.v == o.v && self.f.u8_bitmask() == o.f.u8_bitmask()
+    }
+    fn ser<W: Write>(&self, w: W, _c: Compress) -> Result<(), SerializationError> {
+        self.v.serialize_with_flags(w, self.f)
+    }
+    fn size(&self, _c: Compress) -> usize {
+        self.v.serialized_size_with_flags::<Fl>()
+    }
+    fn deser<R: Read>(r: R, _c: Compress, _v: Validate) -> Result<Self, SerializationError> {
+        F::deserialize_with_flags::<R, Fl>(r).map(|(v, f)| WithFlags { v, f })
+    }
+}
+
+/// quadratic extensions over base primes with 0 and 1 spare bits (no shipped
+/// curve has one; the flag byte then spills for the LAST coefficient only)
+pub struct SecpFq2Config;
+impl Fp2Config for SecpFq2Config {
+    type Fp = ark_test_curves::secp256k1::Fq;
+    const NONRESIDUE: Self::Fp = ark_ff::MontFp!("-1");
+    const FROBENIUS_COEFF_FP2_C1: &'static [Self::Fp] = &[ark_ff::MontFp!("1"), ark_ff::MontFp!("-1")];
+}
+pub type SecpFq2 = Fp2<SecpFq2Config>;
+
+pub struct Fr255Fq2Config;
+impl Fp2Config for Fr255Fq2Config {
+    type Fp = ark_test_curves::bls12_381::Fr;
+    // only the (de)serializers are exercised; the constant need not be a non-residue for that
+    const NONRESIDUE: Self::Fp = ark_ff::MontFp!("5");
+    const FROBENIUS_COEFF_FP2_C1: &'static [Self::Fp] = &[ark_ff::MontFp!("1"), ark_ff::MontFp!("-1")];
+}
+pub type Fr255Fq2 = Fp2<Fr255Fq2Config>;
+
+pub fn flags_entries() -> Vec<Entry> {
+    type SecpFq = ark_test_curves::secp256k1::Fq;
+    vec![
+        e::<WithFlags<F64, SWFlags>>("with_flags F64+SWFlags (spills)", F, 1, 8),
+        e::<WithFlags<F64, TEFlags>>("with_flags F64+TEFlags (spills)", F, 1, 8),
+        e::<WithFlags<F63, SWFlags>>("with_flags F63+SWFlags (1 spare < 2)", F, 1, 8),
+        e::<WithFlags<F63, TEFlags>>("with_flags F63+TEFlags", F, 1, 8),
+        e::<WithFlags<F62, SWFlags>>("with_flags F62+SWFlags", F, 1, 8),
+        e::<WithFlags<F57, SWFlags>>("with_flags F57+SWFlags", F, 1, 8),
+        e::<WithFlags<SecpFq, SWFlags>>("with_flags secp256k1::Fq+SWFlags", F, 1, 8),
+        e::<WithFlags<SecpFq, TEFlags>>("with_flags secp256k1::Fq+TEFlags", F, 1, 8),
+        e::<WithFlags<SecpFq, EmptyFlags>>("with_flags secp256k1::Fq+EmptyFlags", F, 1, 8),
+        e::<WithFlags<Fr, SWFlags>>("with_flags Fr(255)+SWFlags", F, 1, 8),
+        e::<WithFlags<SecpFq2, SWFlags>>("with_flags Fp2(256 bit)+SWFlags", F, 2, 8),
+        e::<WithFlags<SecpFq2, TEFlags>>("with_flags Fp2(256 bit)+TEFlags", F, 1, 8),
+        e::<WithFlags<SecpFq2, EmptyFlags>>("with_flags Fp2(256 bit)+EmptyFlags", F, 1, 8),
+        e::<WithFlags<Fr255Fq2, SWFlags>>("with_flags Fp2(255 bit)+SWFlags", F, 2, 8),
+        e::<WithFlags<Fr255Fq2, TEFlags>>("with_flags Fp2(255 bit)+TEFlags", F, 1, 8),
+        e::<WithFlags<ark_test_curves::bls12_381::Fq2, SWFlags>>("with_flags bls12_381::Fq2+SWFlags", F, 1, 8),
+        e::<WithFlags<ark_test_curves::mnt6_753::Fq3, SWFlags>>("with_flags mnt6_753::Fq3+SWFlags", F, 1, 8),
+        e::<WithFlags<ark_bw6_761::Fq3, TEFlags>>("with_flags bw6_761::Fq3+TEFlags", F, 1, 8),
+        w::<SecpFq2>("harness Fp2 over secp256k1::Fq", F, 1, 8),
+        w::<Fr255Fq2>("harness Fp2 over bls12_381::Fr", F, 1, 8),
     ]
 }
